@@ -747,7 +747,11 @@ impl<'layout, 'out> TableWriter<'layout, 'out> {
             self.write_ifunc_relocation::<A>(res)?;
         } else {
             *got_entry = if res.flags.is_address() && self.output_kind.is_relocatable() {
-                self.write_address_relocation::<A>(got_address, res.raw_value)?
+                self.write_address_relocation::<A>(
+                    got_address,
+                    res.raw_value,
+                    self.relr_dyn.is_some(),
+                )?
             } else {
                 res.raw_value
             };
@@ -765,7 +769,11 @@ impl<'layout, 'out> TableWriter<'layout, 'out> {
             let got_entry = self.take_next_got_entry()?;
             let plt_address = res.plt_address()?;
             *got_entry = if self.output_kind.is_relocatable() {
-                self.write_address_relocation::<A>(ifunc_got_address, plt_address)?
+                self.write_address_relocation::<A>(
+                    ifunc_got_address,
+                    plt_address,
+                    self.relr_dyn.is_some(),
+                )?
             } else {
                 plt_address
             };
@@ -1053,16 +1061,24 @@ impl<'layout, 'out> TableWriter<'layout, 'out> {
         &mut self,
         place: u64,
         relative_address: u64,
+        relr_eligible: bool,
     ) -> Result<u64> {
         debug_assert_bail!(
             self.output_kind.is_relocatable(),
             "write_address_relocation called when output is not relocatable"
         );
         let e = LittleEndian;
-        // Odd offsets mean bitmaps in RELR, so we need to fall back to RELA for them.
-        if let Some(relr_writer) = &mut self.relr_dyn
-            && place.is_multiple_of(2)
-        {
+        // Odd addresses can't be expressed in RELR, so we need to fall back to RELA for them. The
+        // decision must be the one made when sizes were computed (see `elf::relr_eligible`).
+        if relr_eligible {
+            debug_assert_bail!(
+                place.is_multiple_of(2),
+                "RELR-eligible relocation at odd address 0x{place:x}"
+            );
+            let relr_writer = self
+                .relr_dyn
+                .as_mut()
+                .ok_or_else(|| insufficient_allocation(".relr.dyn"))?;
             let relr = relr_writer
                 .split_off_first_mut()
                 .ok_or_else(|| insufficient_allocation(".relr.dyn"))?;
@@ -2266,6 +2282,7 @@ fn apply_relocations<
             &rel,
             SectionInfo {
                 section_address,
+                section_alignment: object_section.sh_addralign.get(LittleEndian),
                 is_writable: object_section.is_writable(),
                 section_flags,
                 part_id: object.section_part_id(section_index, &layout.symbol_db.section_part_ids),
@@ -2511,6 +2528,7 @@ fn write_eh_frame_relocations<'data, A: Arch<Platform = Elf>, R: Relocation>(
                     rel,
                     SectionInfo {
                         section_address: output_pos as u64 + table_writer.eh_frame_start_address,
+                        section_alignment: eh_frame_section.sh_addralign.get(LittleEndian),
                         is_writable: false,
                         section_flags,
                         // .eh_frame relocations never need thunks; use the eh_frame section's
@@ -2612,6 +2630,7 @@ impl<'a, 'data, A: Arch<Platform = Elf>, R: Relocation> Display
 #[derive(Clone, Copy)]
 struct SectionInfo<S: platform::SectionFlags> {
     section_address: u64,
+    section_alignment: u64,
     is_writable: bool,
     section_flags: S,
     part_id: crate::part_id::PartId,
@@ -2883,6 +2902,7 @@ fn apply_relocation<
             table_writer,
             resolution,
             place,
+            rel.offset(),
             addend,
             section_info,
             symbol_index,
@@ -3480,6 +3500,7 @@ fn write_absolute_relocation<'data, A: Arch<Platform = Elf>>(
     table_writer: &mut TableWriter,
     resolution: Resolution<Elf>,
     place: u64,
+    input_offset_in_section: u64,
     addend: i64,
     section_info: SectionInfo<<A::Platform as Platform>::SectionFlags>,
     symbol_index: object::SymbolIndex,
@@ -3526,7 +3547,10 @@ fn write_absolute_relocation<'data, A: Arch<Platform = Elf>>(
             &layout.merged_strings,
             &layout.merged_string_start_addresses,
         )?;
-        table_writer.write_address_relocation::<A>(place, address)
+        // Must match the decision made in `elf::process_relocation` when sizes were computed.
+        let relr_eligible = layout.symbol_db.args.is_relr_enabled()
+            && crate::elf::relr_eligible(input_offset_in_section, section_info.section_alignment);
+        table_writer.write_address_relocation::<A>(place, address, relr_eligible)
     } else {
         resolution.value_with_addend(
             addend,
